@@ -85,6 +85,7 @@ var c15Ascii = []string{"a", "b", "A", "0", "1", " ", "\"", "\\", "'", "[", "]",
 	"&", "%", "#", "~", "*", "(", ")", "|", ";", "=", "`", "!", "?", "/", "_", "-", ".", "\x01", "\x7f", "\x1b"}
 var c15Multi = []string{"é", "ß", "€", "世", "😀", "�", " ", " ", " ", " ", "　", "\u0085"}
 var c15Invalid = []string{"\xff", "\xc3", "\x80", "\xe2\x82", "\xf0\x9f"}
+var c15Docs = []string{`"a"`, `"b c"`, `1`, `-2.5`, `true`, `null`, `[1,2]`, `[]`, `{"a": 1}`, `{"k":"v","n":[1,"x"]}`, `"é"`, `"\u00e9"`, `""`, `{}`}
 var c15Spaces = []string{" ", "\t", "\r", "\v", "\f", " ", " ", "\u0085", "　"}
 
 func c15IsSpaceEnd(s string) bool {
@@ -159,7 +160,7 @@ func c15ListLen(rng *rand.Rand) int {
 func (c15) Gen(seed int64, tier string, emit func(any)) {
 	big := strings.Repeat("x", 65535)
 	for _, ty := range c15Main {
-		for _, in := range [][]string{{}, {"a"}, {"a", "b c", "d"}, {"b", "a", "b"}, {"é€", "😀"}, {"[1,2]", "{\"a\":1}", "\"q\""},
+		for _, in := range [][]string{{}, {"a"}, {"a", "b c", "d"}, {"b", "a", "b"}, {"é€", "😀"}, {"[1,2]", "{\"a\":1}", "\"q\""}, {"\"x\"", "", "\"y\""},
 			{"0", "1", "true", "null"}, {big}, {"a", big, "b"}, {big[:65534] + "é"[:1]}} {
 			emit(c15Case{Ty: ty, In: bstrs(in), Legal: true})
 		}
@@ -170,6 +171,9 @@ func (c15) Gen(seed int64, tier string, emit func(any)) {
 		// outside the legal alphabet: the model must still predict the implementation
 		for _, in := range [][]string{{" a"}, {"a "}, {"\ta\t", "b"}, {"a\r"}, {"a\nb"}, {"a", "\n", "b"}, {" "}, {"a "}, {" a"},
 			{big + "x"}, {"a", big + "xy", "b"}, {"\xff"}, {"a\xc3"}, {"\xe2\x82", "ok"}} {
+			if ty == "json" && strings.Contains(strings.Join(in, ""), "\n") {
+				continue // a multi-line json element makes the foreach output ambiguous
+			}
 			emit(c15Case{Ty: ty, In: bstrs(in), Legal: false})
 		}
 	}
@@ -228,6 +232,7 @@ func (c15) Gen(seed int64, tier string, emit func(any)) {
 		default:
 			ty := c15Main[rng.Intn(4)]
 			al := c15Alphabet(ty, rng)
+			docs := ty == "jsonl" && rng.Intn(3) != 0
 			k := c15ListLen(rng)
 			in := make([]string, k)
 			total := 0
@@ -237,6 +242,9 @@ func (c15) Gen(seed int64, tier string, emit func(any)) {
 					continue // ""
 				}
 				in[j] = c15Elem(rng, ty, al, total < 600000)
+				if docs {
+					in[j] = c15Docs[rng.Intn(len(c15Docs))]
+				}
 				if in[j] == "" {
 					in[j] = "x"
 				}
@@ -358,7 +366,14 @@ func (c15) Run(raw json.RawMessage) Result {
 		}
 	}
 
+	docs := true
+	for _, e := range oRead {
+		if e != "" && !json.Valid([]byte(e)) {
+			docs = false
+		}
+	}
 	coq := coqlit.Record("c_ty", c15Coq[c.Ty], "c_in", c15ChunkList(cin), "c_legal_other", coqlit.Bool(c.Legal),
+		"c_docs", coqlit.Bool(docs),
 		"c_obs", coqlit.Record("o_werr", coqlit.Bool(o.WErr), "o_read", c15ChunkList(oRead), "o_rerr", coqlit.Bool(o.RErr),
 			"o_typed", coqlit.Bool(o.Typed), "o_each", c15ChunkList(oEach)))
 	// keep the evidence small
